@@ -179,6 +179,9 @@ func (s *Server) followCheckSome(addr string, followc int, auth string,
 	if s.aofsz < checksumsz {
 		// too small to compare, start over from the leader's first command
 		if s.aofsz == 0 {
+			// nothing logged, but a server running without an aof may
+			// still hold data of its own
+			s.reset()
 			return 0, nil
 		}
 		return 0, s.followStartOver()
